@@ -1,14 +1,281 @@
-//! Tier R (thorough): real cargo + rustc + the real o2o-macros dylib under the shim.
+//! Tier R (thorough): the simulated-host result is confirmed end to end.  Two generated
+//! crates per back-end -- `rej` (inputs o2o rejects with >= 2 diagnostics) and `acc` (inputs
+//! it accepts) -- are compiled by the real cargo + rustc with the real `o2o-macros` dylib
+//! loaded into rustc, under the same LD_PRELOAD shim, at several entropy seeds and two
+//! environment blocks.  Observed: the sequence of compiler diagnostics (message, line,
+//! column) for `rej`, and the `-Zunpretty=expanded` text for `acc`.  Every run must equal
+//! the first run of its crate.
+
 use crate::corpus::Corpus;
+use crate::gen::{self, Class};
+use crate::oracle::{first_diff, order_sensitive};
+use crate::plan::{run_host, Backend, Build, Event, HostCfg};
+use crate::prng::Rng;
 use crate::Cfg;
 use serde_json::{json, Value};
-use std::path::PathBuf;
+use std::path::{Path, PathBuf};
+use std::process::Command;
 
 pub struct TierResult {
     pub json: Value,
     pub violation: Option<(String, PathBuf)>,
 }
 
-pub fn run(_cfg: &Cfg, _corpus: &Corpus) -> Result<TierResult, String> {
-    Ok(TierResult { json: json!({"ran": false, "note": "not built yet"}), violation: None })
+#[derive(Clone, Debug)]
+pub struct RunCfg {
+    pub entropy_seed: u64,
+    pub extra_env: Vec<(String, String)>,
+}
+
+fn noisy_env(rng: &mut Rng) -> Vec<(String, String)> {
+    let mut v = vec![
+        ("O2O_DEBUG".to_string(), "1".to_string()),
+        ("O2O_LOG".to_string(), "trace".to_string()),
+        ("SOURCE_DATE_EPOCH".to_string(), format!("{}", rng.next_u64() % 2_000_000_000)),
+        ("TZ".to_string(), "Pacific/Kiritimati".to_string()),
+        ("LANG".to_string(), "tr_TR.UTF-8".to_string()),
+        ("LC_ALL".to_string(), "C".to_string()),
+        ("RUST_BACKTRACE".to_string(), "full".to_string()),
+        ("NO_COLOR".to_string(), "1".to_string()),
+        ("CI".to_string(), "true".to_string()),
+        ("DOCS_RS".to_string(), "1".to_string()),
+    ];
+    v.push(("SIM_JUNK".to_string(), "j".repeat(rng.range(100, 3000))));
+    v
+}
+
+fn write_if_changed(p: &Path, s: &str) {
+    if std::fs::read_to_string(p).map(|old| old == s).unwrap_or(false) {
+        return;
+    }
+    let _ = std::fs::create_dir_all(p.parent().unwrap());
+    std::fs::write(p, s).expect("write");
+}
+
+fn crate_source(items: &[String]) -> String {
+    let mut s = String::from("#![allow(warnings)]\n");
+    for (i, it) in items.iter().enumerate() {
+        s.push_str(&format!("pub mod m{} {{\nuse o2o::o2o;\n#[derive(o2o)]\n{}}}\n", i, it));
+    }
+    s
+}
+
+fn cargo_cmd(dir: &Path, target: &Path, shim: Option<(&Path, &RunCfg)>) -> Command {
+    let mut c = Command::new("cargo");
+    c.current_dir(dir);
+    c.env("CARGO_NET_OFFLINE", "true");
+    c.env("CARGO_TARGET_DIR", target);
+    c.env("RUSTC_BOOTSTRAP", "1");
+    c.env("CARGO_BUILD_JOBS", "1");
+    c.env_remove("RUSTFLAGS");
+    c.env_remove("CARGO_ENCODED_RUSTFLAGS");
+    if let Some((shim, rc)) = shim {
+        c.env("LD_PRELOAD", shim);
+        c.env("SIM_ENTROPY_SEED", rc.entropy_seed.to_string());
+        for (k, v) in &rc.extra_env {
+            c.env(k, v);
+        }
+    }
+    c
+}
+
+/// (rendering, ok) of one build of the `rej` crate: ordered compiler diagnostics
+fn render_rej(dir: &Path, target: &Path, shim: &Path, rc: &RunCfg) -> Result<String, String> {
+    let out = cargo_cmd(dir, target, Some((shim, rc))).args(["build", "--offline", "-q", "--message-format=json"]).output().map_err(|e| format!("cargo: {}", e))?;
+    let mut r = String::new();
+    let mut n = 0;
+    for line in String::from_utf8_lossy(&out.stdout).lines() {
+        let Ok(v) = serde_json::from_str::<Value>(line) else { continue };
+        if v["reason"] != "compiler-message" {
+            continue;
+        }
+        let m = &v["message"];
+        let sp = &m["spans"][0];
+        r.push_str(&format!("{}|{}|{}:{}\n", m["level"].as_str().unwrap_or("?"), m["message"].as_str().unwrap_or("?"), sp["line_start"], sp["column_start"]));
+        n += 1;
+    }
+    if n == 0 {
+        return Err(format!("rej crate produced no compiler messages; stderr: {}", String::from_utf8_lossy(&out.stderr).chars().take(600).collect::<String>()));
+    }
+    Ok(r)
+}
+
+fn render_acc(dir: &Path, target: &Path, shim: &Path, rc: &RunCfg) -> Result<String, String> {
+    // force the top crate to be recompiled
+    let lib = dir.join("src/lib.rs");
+    let src = std::fs::read_to_string(&lib).map_err(|e| e.to_string())?;
+    std::fs::write(&lib, &src).map_err(|e| e.to_string())?;
+    let out = cargo_cmd(dir, target, Some((shim, rc))).args(["rustc", "--lib", "--offline", "-q", "--", "-Zunpretty=expanded"]).output().map_err(|e| format!("cargo: {}", e))?;
+    let s = String::from_utf8_lossy(&out.stdout).into_owned();
+    if !s.contains("impl") {
+        return Err(format!("acc crate: no expanded output; stderr: {}", String::from_utf8_lossy(&out.stderr).chars().take(800).collect::<String>()));
+    }
+    Ok(s)
+}
+
+fn setup_crate(dir: &Path, repo: &Path, backend: Backend, items: &[String]) -> Result<(), String> {
+    let manifest = format!(
+        "[package]\nname = \"tier-r\"\nversion = \"0.0.0\"\nedition = \"2021\"\n\n[workspace]\n\n[lib]\npath = \"src/lib.rs\"\n\n[dependencies]\no2o = {{ path = \"{}\", default-features = false, features = [\"{}\"] }}\n",
+        repo.display(),
+        backend.tag()
+    );
+    write_if_changed(&dir.join("Cargo.toml"), &manifest);
+    if !dir.join("Cargo.lock").exists() {
+        std::fs::copy(repo.join("Cargo.lock"), dir.join("Cargo.lock")).map_err(|e| format!("copy Cargo.lock: {}", e))?;
+    }
+    write_if_changed(&dir.join("src/lib.rs"), &crate_source(items));
+    Ok(())
+}
+
+pub struct Selected {
+    pub rej: Vec<String>,
+    pub acc: Vec<String>,
+    pub candidates: usize,
+}
+
+pub fn select_items(cfg: &Cfg, corpus: &Corpus) -> Result<Selected, String> {
+    let env = crate::make_env(cfg);
+    let mut rng = Rng::new(cfg.seed ^ 0x7469_6572_5f52);
+    let mut texts: Vec<(u32, String)> = Vec::new();
+    let n = 500;
+    for i in 0..n {
+        let class = match i % 10 {
+            0..=3 => Class::W1MultiMisuse,
+            4 => Class::W2MultiCounterpart,
+            5 => Class::W3Flatten,
+            6 => Class::W4Repeat,
+            7 => Class::W5Enum,
+            _ => Class::W6Corpus,
+        };
+        texts.push((i as u32, gen::generate(&mut rng, corpus, class).render()));
+    }
+    let mut h = HostCfg::reference();
+    h.events = (0..n as u32).map(|i| Event::Expand { tid: 0, input: i }).collect();
+    let log = run_host(&env, Backend::Syn1, Build::Plain, &texts, &h).map_err(|e| e.0)?;
+    let mut rej = Vec::new();
+    let mut acc = Vec::new();
+    for o in &log.obs {
+        let t = &texts[o.input as usize].1;
+        if o.verdict == "ERR" && order_sensitive(o) && rej.len() < 60 {
+            rej.push(t.clone());
+        } else if o.verdict == "OK" && acc.len() < 80 && syn::parse_str::<syn::File>(&o.text).is_ok() {
+            // (only expansions that are themselves parseable Rust: rustc stops at the first
+            // unparsable derive output and would print nothing)
+            acc.push(t.clone());
+        }
+    }
+    Ok(Selected { rej, acc, candidates: n })
+}
+
+pub fn plan_runs(seed: u64, n: usize) -> Vec<RunCfg> {
+    let mut rng = Rng::new(seed ^ 0x72_756e_73);
+    let mut v = vec![RunCfg { entropy_seed: 0, extra_env: vec![] }];
+    for i in 1..n {
+        let extra_env = if i % 2 == 0 { noisy_env(&mut rng) } else { vec![] };
+        v.push(RunCfg { entropy_seed: 1 + rng.next_u64() % 0xFFFF_FFFF, extra_env });
+    }
+    v
+}
+
+fn runcfg_json(r: &RunCfg) -> Value {
+    json!({"entropy_seed": r.entropy_seed.to_string(), "extra_env": r.extra_env.iter().map(|(k, v)| json!([k, v])).collect::<Vec<_>>()})
+}
+
+pub fn run(cfg: &Cfg, corpus: &Corpus) -> Result<TierResult, String> {
+    let t0 = std::time::Instant::now();
+    let sel = select_items(cfg, corpus)?;
+    let shim = cfg.build_dir.join("simhost.so");
+    let base = cfg.build_dir.join("rustc-tier");
+    let n_runs: usize = std::env::var("SIM_RUSTC_RUNS").ok().and_then(|s| s.parse().ok()).unwrap_or(8);
+    let runs = plan_runs(cfg.seed, n_runs);
+    let mut summary = Vec::new();
+    let mut violation = None;
+    let mut compiles = 0;
+    for backend in [Backend::Syn1, Backend::Syn2] {
+        for (kind, items) in [("rej", &sel.rej), ("acc", &sel.acc)] {
+            if items.is_empty() {
+                continue;
+            }
+            let dir = base.join(format!("{}-{}", backend.tag(), kind));
+            let target = base.join(format!("target-{}", backend.tag()));
+            setup_crate(&dir, &cfg.repo, backend, items)?;
+            // dependencies (incl. the o2o-macros dylib) are built without the shim, so that a
+            // fixed entropy stream never meets concurrently running rustc processes
+            let _ = cargo_cmd(&dir, &target, None).args(["build", "--offline", "-q"]).output();
+            let mut reference: Option<String> = None;
+            let mut equal = 0;
+            for rc in &runs {
+                let r = if kind == "rej" { render_rej(&dir, &target, &shim, rc)? } else { render_acc(&dir, &target, &shim, rc)? };
+                compiles += 1;
+                match &reference {
+                    None => reference = Some(r),
+                    Some(x) if *x == r => equal += 1,
+                    Some(x) => {
+                        if violation.is_none() {
+                            let fd = first_diff(x, &r);
+                            let path = cfg.verif.join("replays").join(format!("C19-{}-rustc-{}-{}.json", cfg.seed, backend.tag(), kind));
+                            let _ = std::fs::create_dir_all(cfg.verif.join("replays"));
+                            let v = json!({
+                                "property": "C19", "kind": "rustc_tier",
+                                "what": "real cargo/rustc with the real o2o-macros dylib produced different output for the same crate on two simulated hosts",
+                                "backend": backend.tag(), "crate_kind": kind, "repo": cfg.repo.to_string_lossy(),
+                                "lib_rs": crate_source(items),
+                                "reference_run": runcfg_json(&runs[0]), "faulty_run": runcfg_json(rc),
+                                "first_diff": fd,
+                            });
+                            std::fs::write(&path, serde_json::to_string_pretty(&v).unwrap()).map_err(|e| e.to_string())?;
+                            violation = Some((format!("{}-{}: {}", backend.tag(), kind, fd), path));
+                        }
+                    },
+                }
+            }
+            let lines = reference.as_ref().map(|r| r.lines().count()).unwrap_or(0);
+            summary.push(json!({"backend": backend.tag(), "crate": kind, "items": items.len(), "runs": runs.len(), "runs_equal_to_first": equal, "rendering_lines": lines}));
+        }
+    }
+    Ok(TierResult {
+        json: json!({
+            "ran": true, "cargo_invocations_under_shim": compiles, "entropy_seeds": runs.iter().map(|r| r.entropy_seed).collect::<Vec<_>>(),
+            "runs_with_noisy_env": runs.iter().filter(|r| !r.extra_env.is_empty()).count(),
+            "candidates_classified": sel.candidates, "rejected_items": sel.rej.len(), "accepted_items": sel.acc.len(),
+            "crates": summary, "wall_s": t0.elapsed().as_secs_f64(),
+        }),
+        violation,
+    })
+}
+
+pub fn replay(cfg: &Cfg, v: &Value, path: &Path) -> i32 {
+    let Some(backend) = v["backend"].as_str().and_then(Backend::parse) else { return 2 };
+    let kind = v["crate_kind"].as_str().unwrap_or("rej").to_string();
+    let parse_rc = |x: &Value| -> Option<RunCfg> {
+        Some(RunCfg { entropy_seed: x["entropy_seed"].as_str()?.parse().ok()?, extra_env: x["extra_env"].as_array()?.iter().filter_map(|e| Some((e[0].as_str()?.to_string(), e[1].as_str()?.to_string()))).collect() })
+    };
+    let (Some(a), Some(b)) = (parse_rc(&v["reference_run"]), parse_rc(&v["faulty_run"])) else { return 2 };
+    let shim = cfg.build_dir.join("simhost.so");
+    let base = cfg.build_dir.join("rustc-tier-replay");
+    let dir = base.join(format!("{}-{}", backend.tag(), kind));
+    let target = base.join(format!("target-{}", backend.tag()));
+    let manifest_items: Vec<String> = vec![];
+    if setup_crate(&dir, &cfg.repo, backend, &manifest_items).is_err() {
+        return 2;
+    }
+    write_if_changed(&dir.join("src/lib.rs"), v["lib_rs"].as_str().unwrap_or(""));
+    let _ = cargo_cmd(&dir, &target, None).args(["build", "--offline", "-q"]).output();
+    let f = |rc: &RunCfg| if kind == "rej" { render_rej(&dir, &target, &shim, rc) } else { render_acc(&dir, &target, &shim, rc) };
+    match (f(&a), f(&b)) {
+        (Ok(x), Ok(y)) => {
+            if x != y {
+                println!("replay (rustc tier): outputs differ: {}", first_diff(&x, &y));
+                println!("VIOLATION property=C19 replay={}", path.display());
+                1
+            } else {
+                println!("replay (rustc tier): no longer reproduces");
+                0
+            }
+        },
+        (Err(e), _) | (_, Err(e)) => {
+            eprintln!("harness error: {}", e);
+            2
+        },
+    }
 }
